@@ -498,18 +498,66 @@ Definition fuse_step (d : list (positive * sval)) (st : fstep) : list (positive 
       end
   end.
 
-(* a step fuse may take: the inlined key occurs exactly once in the whole graph, its own value is a task;
-   an alias key is new *)
+(* values in which dask.core.subs and the scheduler see the same key references: no key string inside a
+   tuple that is not a task (subs does not enter those, the scheduler does) *)
+Fixpoint clean (keys : list positive) (a : sval) : bool :=
+  let fix all (l : list sval) : bool :=
+      match l with [] => true | x :: tl => clean keys x && all tl end in
+  match a with
+  | STuple l => match l with
+                | h :: rest => if is_callable h then all rest else negb (has_key_string keys a)
+                | [] => true
+                end
+  | SList l => all l
+  | _ => true
+  end.
+
+Definition all_deps (keys : list positive) (d : list (positive * sval)) : list positive :=
+  flat_map (fun kv => arg_deps keys (snd kv)) d.
+
+(* a step fuse may take.  FInline c: every value is clean, c is a key, the scheduler sees exactly one
+   reference to c in the whole graph, the value of c is a task and does not refer to c.
+   FAlias r a: r is a key, a is a new key and no value contains the string a where the scheduler would
+   read it as a reference. *)
 Definition fuse_step_ok (d : list (positive * sval)) (st : fstep) : bool :=
   let keys := map fst d in
   match st with
   | FInline c =>
-      memp c keys &&
-      (length (filter (Pos.eqb c) (flat_map (fun kv => key_occs keys (snd kv)) d)) =? 1) &&
-      match dlookup0 d c with Some (STuple (h :: _)) => is_callable h | _ => false end &&
-      negb (memp c (match dlookup0 d c with Some vc => key_occs keys vc | None => [] end))
-  | FAlias r a => memp r keys && negb (memp a keys)
+      memp c keys && forallb (fun kv => clean keys (snd kv)) d &&
+      (length (filter (Pos.eqb c) (all_deps keys d)) =? 1) &&
+      match dlookup0 d c with
+      | Some (STuple (h :: rest)) => is_callable h && negb (memp c (arg_deps keys (STuple (h :: rest))))
+      | _ => false
+      end
+  | FAlias r a => memp r keys && negb (memp a keys) && negb (memp a (all_deps (keys ++ [a]) d))
   end.
+
+(* the guard conjunct of the alias step that exists because the CODE fails (finding C17-FUSE-ALIAS-COLLISION):
+   no value of the graph mentions the new key a where the scheduler reads strings.  dask.optimization.fuse
+   only checks that a is not yet a KEY. *)
+Definition g_alias_unmentioned (d : list (positive * sval)) (a : positive) : bool :=
+  negb (memp a (all_deps (map fst d ++ [a]) d)).
+
+(* the legality of a step without that conjunct (what fuse itself guarantees) *)
+Definition fuse_step_ok_weak (d : list (positive * sval)) (st : fstep) : bool :=
+  match st with
+  | FAlias r a => memp r (map fst d) && negb (memp a (map fst d))
+  | FInline _ => fuse_step_ok d st
+  end.
+
+(* (all steps weakly legal, some alias step whose name is mentioned by a value) *)
+Fixpoint fuse_steps_weak (d : list (positive * sval)) (l : list fstep) : bool * bool :=
+  match l with
+  | [] => (true, false)
+  | st :: tl =>
+      let (ok, clash) := fuse_steps_weak (fuse_step d st) tl in
+      (fuse_step_ok_weak d st && ok,
+       match st with FAlias _ a => negb (g_alias_unmentioned d a) | FInline _ => false end || clash)
+  end.
+
+(* no step removes the key r or introduces it as an alias *)
+Definition avoids (r : positive) (l : list fstep) : bool :=
+  forallb (fun st => match st with FInline c => negb (Pos.eqb c r) | FAlias _ a => negb (Pos.eqb a r) end) l.
 
 Fixpoint fuse_steps (d : list (positive * sval)) (l : list fstep) : list (positive * sval) * bool :=
   match l with
